@@ -1,0 +1,17 @@
+//go:build verif
+
+// Contracts for package utils, checked by /verif/govc (comment-only file; compiled only
+// with the build tag "verif", which no build of the application uses).
+package utils
+
+// C09: the target of WriteFileAtomic is never the destination of a non-atomic write: it changes
+// only through an atomic rename of a completely written temporary file. Whenever the call is
+// interrupted, and whenever it returns an error, path holds its complete previous content; when it
+// returns nil path holds the complete new content. (File-system ghost model: prelude.contracts.)
+//@ func WriteFileAtomic
+//@   requires !fsPartial(path)
+//@   modifies ghost(fsPartial), ghost(fsWhole)
+//@   ensures[C09.target-never-partial] !fsPartial(path)
+//@   ensures[C09.success-is-whole] result == nil ==> fsWhole(path)
+//@   ensures[C09.failure-keeps-old] result != nil ==> fsWhole(path) == old(fsWhole(path))
+//@   ensures[C09.others-untouched] forall p string :: p != path && p != path + ".tmp" ==> fsPartial(p) == old(fsPartial(p)) && fsWhole(p) == old(fsWhole(p))
